@@ -96,8 +96,25 @@ pub fn run(ctx: &Ctx) -> Result<Evidence, String> {
     docs.extend(gen::curated_docs().into_iter().filter(|d| d.node_count() < 300));
     let mut cfg = gen::DocCfg::default();
     cfg.keys = ["a", "b", "0", "1", "a/b", "~", "x y", "'", "\\", ""].iter().map(|s| s.to_string()).collect();
-    for _ in 0..ctx.tier.pick(200, 60000) {
+    for _ in 0..ctx.tier.pick(2500, 60000) {
         docs.push(gen::random_doc(&mut rng, &cfg));
+    }
+    // long member names drawn from a hostile alphabet: every adjacency of brackets, quotes,
+    // backslashes, pointer characters, controls and multi-byte characters, at every offset
+    let alphabet: Vec<char> = "][\\'\"/~ .a0\u{e9}\u{1f600}\t\n\u{1}$@*-_%".chars().collect();
+    for _ in 0..ctx.tier.pick(60, 1500) {
+        let mut members: Vec<(String, J)> = vec![];
+        for k in 0..30 {
+            let len = 1 + rng.below(44) as usize;
+            let name: String = (0..len).map(|_| *rng.pick(&alphabet)).collect();
+            if members.iter().any(|(n, _)| *n == name) {
+                continue;
+            }
+            let inner_len = 14 + rng.below(20) as usize;
+            let inner: String = (0..inner_len).map(|_| *rng.pick(&alphabet)).collect();
+            members.push((name, if k % 3 == 0 { J::Obj(vec![(inner, J::int(k))]) } else { J::Arr(vec![J::int(k), J::Null]) }));
+        }
+        docs.push(J::Obj(members));
     }
     let reps = replacement_values();
     let seed = ctx.seed;
